@@ -198,6 +198,37 @@ def extract_full_reaction(run_entry, n_workers):
 
 # ------------------------------------------------------------------ 2. worker reaction table
 
+def worker_callbacks_for(call_worker, message):
+    """Hand ONE recorded queue message to the REAL worker function (then end of input) and return the callback
+    arguments it produces for it, in order — the work items a message stands for (normally exactly one)."""
+    out = []
+    state = {"k": 0}
+
+    class InQ:
+        def get(self, block=True, timeout=None):
+            state["k"] += 1
+            if state["k"] == 1:
+                return message
+            raise Stop()
+
+    class Ev:
+        def is_set(self):
+            return False
+
+        def wait(self, timeout=None):
+            return False
+
+    class OutQ:
+        def put(self, item, *a, **k):
+            pass
+
+    try:
+        call_worker(InQ(), Ev(), lambda item: out.append(item), OutQ())
+    except Stop:
+        pass
+    return out
+
+
 def infer_worker(call_worker, max_len=3, make_item=None):
     """call_worker(in_queue, event, on_callback, out_queue) must invoke the REAL worker function.
 
@@ -255,7 +286,9 @@ def infer_worker(call_worker, max_len=3, make_item=None):
                     return self.is_set()
 
             def on_cb(item):
-                log.append(("cb", item))
+                # with a caller-supplied message the callback argument is whatever the code passes: name it by the
+                # receive it belongs to
+                log.append(("cb", ("ITEM", state["k"]) if make_item is not None else item))
 
             exited = False
             try:
